@@ -180,7 +180,10 @@ ObsSDeliver(o, e) ==
         validReq == /\ d.kind = "Request" /\ d.label # "garbage" /\ ~nonauth /\ TokValid(o, d.tok, tsecs)
                     \* a token the server already acted on for another address is not valid from this one
                     /\ ~(\E q2 \in o.reqs : q2.tok = d.tok /\ q2.addr # e.from /\ q2.answered)
-        validResp == d.kind = "Response" /\ d.intact /\ ~nonauth /\ <<d.cseq, d.cid>> \in o.chals
+        \* a valid response echoes a challenge this server issued FOR THE TOKEN the address is bound to (id and user data)
+        boundTok == Get(o.bind, e.from, "none")
+        validResp == /\ d.kind = "Response" /\ d.intact /\ ~nonauth /\ <<d.cseq, d.cid>> \in o.chals
+                     /\ boundTok \in DOMAIN o.tok /\ o.tok[boundTok].id = d.cid /\ o.tok[boundTok].ud = d.cud
         F19 == IF unproven /\ e.reply.kind # "None"
                THEN (IF e.reply.to # e.from THEN {<<"C19", "SameAddr">>} ELSE {})
                     \cup (IF e.reply.len >= d.len THEN {<<"C19", "Smaller">>} ELSE {})
